@@ -119,7 +119,9 @@ class Model:
 
 
         self.agent_factories[agent_type] = agent_factory
-        self.agent_type_map[agent_type] = []
+        # (a factory that is registered again - instantiate_model() called twice - keeps the ids of the agents that live already)
+        if agent_type not in self.agent_type_map:
+            self.agent_type_map[agent_type] = []
 
 
     def reset(self):
